@@ -169,9 +169,12 @@ def task_reference(task):
 def task_schedule(task):
     from vlib import lib
     lib.load("nojit")
-    (K, P, mp, perm, rounds) = task
+    (K, P, mp, perm, rounds) = task[:5]
+    eager = task[5] if len(task) > 5 else None
     log = []
-    orders = {r: list(perm) for r in range(rounds)} if perm is not None else None
+    orders = None
+    if perm is not None:
+        orders = {r: (list(perm) if eager is None else (list(perm), eager)) for r in range(rounds)}
     res = guarded_probe(K, P=P, mp=mp, orders=orders, log=log)
     tp = log[0] if log else None
     arrivals = list(tp.arrivals) if tp else []
@@ -271,6 +274,8 @@ def run(ctx):
         inits = inits[::step]
         for lo in range(0, len(inits), 1 if d.K > 2 else 2):
             vt.append((name, ctx.seed, inits[lo:lo + (1 if d.K > 2 else 2)], 2 if (ctx.thorough or d.K == 2) else 1))
+    if os.environ.get("VERIF_C14_PARTS", "virtual,real").find("virtual") < 0:
+        vt = []         # diagnostic switch: run the real-pool part alone
     for r in ctx.pmap(work_virtual, vt):
         ctx.take(r)
     # (2) real pool
@@ -286,12 +291,18 @@ def run(ctx):
                     perms = [None]          # same pool as P=1: one unforced run per P is enough
                 for perm in perms:
                     sched.append((K, P, mp, perm, rounds))
+                    # with a worker per task, also script how many tasks have finished when the parent first
+                    # looks (the rest finish only as it blocks or polls) - same schedule space as the virtual pool
+                    if mp and perm is not None and eff >= K and P in (K, 8):
+                        for eager in range(K):
+                            sched.append((K, P, mp, perm, rounds, eager))
         outs = realpool.fresh_map(task_schedule, sched, jobs=8, timeout=120)
         patterns = set()
         for t, o in zip(sched, outs):
             acc.n += 1
             case = {"kind": "real", "K": t[0], "P": t[1], "multiprocessing": t[2],
-                    "perm": None if t[3] is None else list(t[3]), "rounds": rounds}
+                    "perm": None if t[3] is None else list(t[3]), "rounds": rounds,
+                    "eager": t[5] if len(t) > 5 else None}
             if o["want"] is not None and [tuple(a) for a in o["arrivals"]][:len(o["want"])] != o["want"]:
                 raise HarnessError(f"schedule {case} not enforced: arrivals {o['arrivals']} wanted {o['want']}")
             if t[3] is not None and list(t[3]) != sorted(t[3]):
@@ -340,7 +351,7 @@ def run(ctx):
         "already finished when the parent first inspects a result; the rest finish only as the parent blocks or polls), "
         "exhaustive when (K!(K+1))^rounds <= 1300, else every script with <= 2 (K=3 quick: 1) non-default rounds; (2) real multiprocessing.Pool, default "
         "GMM path with seeded global RNGs: num_processors 1..8 x CUPCAKE_ENABLE_MULTIPROCESSING off/on x every "
-        "feasible forced completion permutation (handshake); a schedule "
+        "feasible forced completion permutation (handshake), and for P in {K, 8} every (permutation, finished-before-the-parent-looks) script as on the virtual pool; a schedule "
         "whose arrival log differs from its script is a harness error; (3) same seeds twice in one process and "
         "across processes, for the ordinary probe and for a probe that repopulates (draws from the global Python generator); (4) every history of up to " + str(h) + " preceding calls from "
         + str(list(SHAPES)) + " before the probe, each history in its own fresh process. Oracle: complete result "
@@ -363,7 +374,8 @@ def replay(ctx, case):
         K = case["K"]
         (refd, _l, rounds) = realpool.fresh_map(task_reference, [(K,)])[0]
         perm = None if case["perm"] is None else tuple(case["perm"])
-        o = realpool.fresh_map(task_schedule, [(K, case["P"], case["multiprocessing"], perm, rounds)])[0]
+        tt = (K, case["P"], case["multiprocessing"], perm, rounds) + ((case["eager"],) if case.get("eager") is not None else ())
+        o = realpool.fresh_map(task_schedule, [tt])[0]
         acc.n = 1
         if o["digest"] != refd:
             acc.fail(case, "result differs from the single-pool reference")
